@@ -723,7 +723,7 @@ func (ξ *BlindCorrectFormProof) Verify(c *math.Curve, n int, a, b []*math.G1, c
 	for i := 0; i < n; i++ {
 		left := u.Mul(ξ.x[i])
 		left.Add(h.Mul(ξ.y[i]))
-		right := ξ.d[i]
+		right := ξ.d[i].Copy()
 		right.Add(b[i].Mul(e))
 		if !left.Equals(right) {
 			return fmt.Errorf("u^{x%d}h^{y%d} != d%db%d^e", i, i, i, i)
